@@ -3,6 +3,6 @@ PROP = _crdt.prop("DefraModel.Props.C03", ["at-error", "at-differs-from-then", "
 PROP["rule"] = _crdt.RULE + "; every composite commit is read back (time-travel query) right after it is written or delivered and again from replica 0 at every quiescent point; a GraphQL subscription on every replica records what it yields per local write"
 META = dict(
     text="Lean theorems about the mirror of the versioned fetcher: for every DAG and commit the read is a fold of the CRDT merges over a duplicate-free block list (each block at most once), hence counters are sums with one term per block, deletes sticky, replay order immaterial. Tied to /repo by reading every commit of every generated history (linear, branching, merged) through the GraphQL cid argument and through subscriptions and comparing with the mirror and with canon(closure of the commit); the statement's three clauses (equals the ordinary query right after a local linear commit; counters = prefix sums; equals the current query at the single head) are evaluated on the implementation alone.",
-    design_ref="DESIGN.md section 8, C03", note=_crdt.NOTE + " For C03 additionally: that the replay reaches every ancestor (at-least-once) is compared by execution on every read, not proved.",
+    design_ref="DESIGN.md section 8, C03", note=_crdt.NOTE + " For C03: the replay is proved to reach every stored ancestor and every linked block exactly once (read_at_commit_replays_every_ancestor_once).",
     technique="Lean 4 proof (at-most-once replay, fold characterisation) + differential correspondence of time-travel reads")
 ENGINES = [_crdt.ENGINE]
